@@ -210,7 +210,7 @@ Definition dispatch (O : oracle) (op : Z) (d : data) : data :=
           let '(tr, g) := sched_trace p (start (Z.to_nat n)) sc in
           DL [DL tr;
               e_list (fun th => DL [e_nat (pc th); e_opt e_bool (result th)]) (threads g);
-              e_opt e_nat (slot g); e_bool (shape_safe p)]
+              e_opt e_nat (slot g); e_bool (safe_order p)]
       | _, _ => bad_input
       end
   | 19, idx =>
